@@ -66,6 +66,8 @@ def readback(fs, name):
 def one_case(r, cls, kinds):
     t = gen_factory.Template()
     conds = [gen_factory.gen_condition(t, r, kinds) for _ in range(r.randint(1, 3))]
+    if r.random() < 0.15:
+        conds.append(r.choice(conds))        # the same condition twice (last = an earlier one): legal, if pointless
     ncond_holes = t.n
     acts = [gen_action(t, r) for _ in range(r.randint(1, 2))]
     mt = r.choice(["anyof", "allof"])
